@@ -88,10 +88,14 @@ NoVars == [n \in Names |-> Absent]
 \* fenv: the environment of the nearest enclosing non-arrow function (it owns `arguments`); args / ps / nmap are meaningful in
 \* such an environment only: the argument values as passed, the parameter names, the number of MAPPED arguments
 \* venv: the variable environment that sloppy direct eval code adds its var declarations to (the function's, or the global one)
-Env(parent, vs, fenv, venv) == [parent |-> parent, vars |-> vs, fenv |-> fenv, venv |-> venv, args |-> <<>>, alen |-> 0, ps |-> <<>>, nmap |-> 0]
-Store0 == [envs |-> <<Env(0, NoVars, 1, 1)>>, fns |-> <<>>, objs |-> <<>>, log |-> <<>>, fuel |-> 400]    \* envs[1]: the global environment
-\* objects (literals with the keys a / b): [a, b |-> [k: "none" | "data" | "get", v: the value / the getter function]]
-PropNone == [k |-> "none", v |-> Undef]
+\* th: the this value (meaningful in the environment of a non-arrow function call; arrows read it through fenv)
+Env(parent, vs, fenv, venv) == [parent |-> parent, vars |-> vs, fenv |-> fenv, venv |-> venv, args |-> <<>>, alen |-> 0, ps |-> <<>>, nmap |-> 0, th |-> Undef]
+\* objects (literals with the keys a / b): [a, b |-> [k: "none" | "data" | "acc", v: the value, g / s: getter / setter function id, 0 = absent]]
+\* objs[1] is the global object (the this value of a sloppy function called without a receiver)
+PropNone == [k |-> "none", v |-> Undef, g |-> 0, s |-> 0]
+DataProp(v) == [k |-> "data", v |-> v, g |-> 0, s |-> 0]
+Store0 == [envs |-> <<Env(0, NoVars, 1, 1)>>, fns |-> <<>>, objs |-> <<[a |-> PropNone, b |-> PropNone]>>, log |-> <<>>, fuel |-> 400]    \* envs[1]: the global environment
+GlobalObj == Obj(1)
 
 Ok(st, v) == [st |-> st, c |-> [ty |-> "normal", v |-> v]]
 Thr(st, v) == [st |-> st, c |-> [ty |-> "throw", v |-> v]]
@@ -108,9 +112,9 @@ NewEnv(st, parent, vs) == [st EXCEPT !.envs = Append(@, Env(parent, vs, st.envs[
 \* the newest environment is a variable environment of its own (function body)
 AsVarEnv(st) == [st EXCEPT !.envs[Len(st.envs)].venv = Len(st.envs)]
 \* the environment of a non-arrow function call: it is its own fenv
-NewFEnv(st, parent, vs, args, ps, nmap) ==
+NewFEnv(st, parent, vs, args, ps, nmap, th) ==
   [st EXCEPT !.envs = Append(@, [parent |-> parent, vars |-> vs, fenv |-> Len(st.envs) + 1, venv |-> Len(st.envs) + 1, args |-> args,
-                                  alen |-> Len(args), ps |-> ps, nmap |-> nmap])]
+                                  alen |-> Len(args), ps |-> ps, nmap |-> nmap, th |-> th])]
 Top(st) == Len(st.envs)
 SetB(st, env, x, b) == [st EXCEPT !.envs[env].vars[x] = b]
 Init(v, m) == [s |-> "init", v |-> v, m |-> m]
@@ -151,8 +155,8 @@ LexVars(l, base) == [n \in Names |-> IF \E i \in LexDecls(l) : n \in DeclTargets
                                      ELSE base[n]]
 
 -----------------------------------------------------------------------------
-RECURSIVE EvalE(_, _, _, _), EvalS(_, _, _, _), EvalL(_, _, _, _, _), EvalArgs(_, _, _, _, _, _), CallFn(_, _, _),
-          EvalBlock(_, _, _, _), ForLoop(_, _, _, _, _), EvalProps(_, _, _, _, _, _), GetV(_, _, _), BindPat(_, _, _, _, _, _, _), HoistF(_, _, _, _, _), BindParams(_, _, _, _, _, _),
+RECURSIVE EvalE(_, _, _, _), EvalS(_, _, _, _), EvalL(_, _, _, _, _), EvalArgs(_, _, _, _, _, _), CallFn(_, _, _, _),
+          EvalBlock(_, _, _, _), ForLoop(_, _, _, _, _), EvalProps(_, _, _, _, _, _), GetV(_, _, _), PutV(_, _, _, _, _), BindPat(_, _, _, _, _, _, _), HoistF(_, _, _, _, _), BindParams(_, _, _, _, _, _),
           FindCase(_, _, _, _, _, _), RunCases(_, _, _, _, _), ForOf(_, _, _, _, _, _)
 
 \* closures: [p: parameter names, body: statement list, env, kind: "arrow" | "func" | "named", name, strict]
@@ -225,7 +229,43 @@ EvalE(e, env, st, sm) ==
                         ELSE LET as == EvalArgs(e.k, 2, env, f.st, sm, <<>>) IN
                              IF Abrupt(as.r) THEN as.r
                              ELSE IF f.c.v.t # "fn" THEN Thr(as.r.st, TypeErr)
-                             ELSE CallFn(as.r.st, f.c.v.v, as.vals))
+                             ELSE CallFn(as.r.st, f.c.v.v, as.vals, Undef))
+    \* 13.3.6 a call through a property reference: the base is the this value; GetValue (a getter may run) precedes the arguments,
+    \* the callability check follows them
+    [] e.t = "mcall" -> (LET o == EvalE(e.k[1], env, st, sm) IN
+                         IF Abrupt(o) THEN o
+                         ELSE LET f == GetV(o.st, o.c.v, e.x) IN
+                              IF Abrupt(f) THEN f
+                              ELSE LET as == EvalArgs(e.k, 2, env, f.st, sm, <<>>) IN
+                                   IF Abrupt(as.r) THEN as.r
+                                   ELSE IF f.c.v.t # "fn" THEN Thr(as.r.st, TypeErr)
+                                   ELSE CallFn(as.r.st, f.c.v.v, as.vals, o.c.v))
+    [] e.t = "this" -> Ok(st, st.envs[st.envs[env].fenv].th)
+    \* 13.15.2 assignment to a property reference: base, right-hand side, PutValue (ToObject(base) fails only now)
+    [] e.t = "mset" -> (LET o == EvalE(e.k[1], env, st, sm) IN
+                        IF Abrupt(o) THEN o
+                        ELSE LET rv == EvalE(e.k[2], env, o.st, sm) IN
+                             IF Abrupt(rv) THEN rv
+                             ELSE LET pv == PutV(rv.st, o.c.v, e.x, rv.c.v, sm) IN IF Abrupt(pv) THEN pv ELSE Ok(pv.st, rv.c.v))
+    \* o.a += rhs: base, GetValue (getter), right-hand side, PutValue (setter)
+    [] e.t = "maddassign" -> (LET o == EvalE(e.k[1], env, st, sm) IN
+                              IF Abrupt(o) THEN o
+                              ELSE LET old == GetV(o.st, o.c.v, e.x) IN
+                                   IF Abrupt(old) THEN old
+                                   ELSE LET rv == EvalE(e.k[2], env, old.st, sm) IN
+                                        IF Abrupt(rv) THEN rv
+                                        ELSE LET nv == ValAdd(old.c.v, rv.c.v)
+                                                 pv == PutV(rv.st, o.c.v, e.x, nv, sm)
+                                             IN IF Abrupt(pv) THEN pv ELSE Ok(pv.st, nv))
+    \* o.a++ / ++o.a
+    [] e.t = "mincdec" -> (LET o == EvalE(e.k[1], env, st, sm) IN
+                           IF Abrupt(o) THEN o
+                           ELSE LET old == GetV(o.st, o.c.v, e.x) IN
+                                IF Abrupt(old) THEN old
+                                ELSE LET n0 == ToNum(old.c.v)
+                                         nv == IF n0 = NaNv THEN NaNv ELSE n0 + e.n
+                                         pv == PutV(old.st, o.c.v, e.x, Num(nv), sm)
+                                     IN IF Abrupt(pv) THEN pv ELSE Ok(pv.st, Num(IF e.op = "pre" THEN nv ELSE n0)))
     [] e.t = "log" -> (LET r == EvalE(e.k[1], env, st, sm) IN
                        IF Abrupt(r) THEN r ELSE Ok([r.st EXCEPT !.log = Append(@, Code(r.c.v))], r.c.v))
     [] e.t \in {"add", "lt"} -> (LET a == EvalE(e.k[1], env, st, sm) IN
@@ -252,18 +292,35 @@ EvalE(e, env, st, sm) ==
 EvalProps(k, i, env, st, sm, rec) ==
   IF i > Len(k) THEN [r |-> Ok(st, Undef), rec |-> rec]
   ELSE LET pr == k[i] IN
-       IF pr.kind = "get"
-       THEN LET m == MkFn(st, pr.k[1], env, sm) IN EvalProps(k, i + 1, env, m.st, sm, [rec EXCEPT ![pr.x] = [k |-> "get", v |-> Fn(m.id)]])
+       IF pr.kind \in {"get", "set"}
+       THEN \* a getter / setter definition keeps the other half of an accessor defined earlier under the same key, and replaces a data property
+            LET m == MkFn(st, pr.k[1], env, sm)
+                old == rec[pr.x]
+                g == IF pr.kind = "get" THEN m.id ELSE IF old.k = "acc" THEN old.g ELSE 0
+                sv == IF pr.kind = "set" THEN m.id ELSE IF old.k = "acc" THEN old.s ELSE 0
+            IN EvalProps(k, i + 1, env, m.st, sm, [rec EXCEPT ![pr.x] = [k |-> "acc", v |-> Undef, g |-> g, s |-> sv]])
        ELSE LET v == EvalE(pr.k[1], env, st, sm) IN
             IF Abrupt(v) THEN [r |-> v, rec |-> rec]
-            ELSE EvalProps(k, i + 1, env, v.st, sm, [rec EXCEPT ![pr.x] = [k |-> "data", v |-> v.c.v]])
+            ELSE EvalProps(k, i + 1, env, v.st, sm, [rec EXCEPT ![pr.x] = DataProp(v.c.v)])
 
 \* 7.3.3 GetV: ToObject(undefined) throws; the keys a / b exist on object literals only; a getter runs
 GetV(st, v, key) ==
   IF v.t = "undef" THEN Thr(st, TypeErr)
   ELSE IF v.t # "obj" THEN Ok(st, Undef)
   ELSE LET pr == st.objs[v.v][key] IN
-       IF pr.k = "none" THEN Ok(st, Undef) ELSE IF pr.k = "data" THEN Ok(st, pr.v) ELSE CallFn(st, pr.v.v, <<>>)
+       IF pr.k = "none" THEN Ok(st, Undef) ELSE IF pr.k = "data" THEN Ok(st, pr.v)
+       ELSE IF pr.g = 0 THEN Ok(st, Undef) ELSE CallFn(st, pr.g, <<>>, v)
+
+\* 7.3.4 Set / 10.1.9 OrdinarySet through a property reference (6.2.5.6 PutValue): undefined base -> TypeError; a primitive base cannot
+\* take a property (strict: TypeError); functions and errors as bases are outside the model
+PutV(st, b, key, v, strict) ==
+  IF b.t = "undef" THEN Thr(st, TypeErr)
+  ELSE IF b.t \in {"fn", "err"} THEN Thr(st, Err(7777))
+  ELSE IF b.t # "obj" THEN (IF strict THEN Thr(st, TypeErr) ELSE Ok(st, v))
+  ELSE LET pr == st.objs[b.v][key] IN
+       IF pr.k \in {"none", "data"} THEN Ok([st EXCEPT !.objs[b.v][key] = DataProp(v)], v)
+       ELSE IF pr.s = 0 THEN (IF strict THEN Thr(st, TypeErr) ELSE Ok(st, v))
+       ELSE LET c == CallFn(st, pr.s, <<v>>, b) IN IF Abrupt(c) THEN c ELSE Ok(c.st, v)
 
 \* 8.6.2 / 14.3.3 BindingInitialization and 13.15.5.x for a pattern  pat = [t: "opat" | "apat", k: elements [x: target, key | n, k: <<default>>]]
 \* against a value (an array pattern is matched against the list of element values of an array literal).  mode: "let" / "const" /
@@ -311,8 +368,10 @@ BindParams(cl, i, args, penv, st, sm) ==
           THEN LET b == BindPat(cl.pp[i], 1, r.c.v, penv, r.st, sm, "param") IN IF Abrupt(b) THEN b ELSE BindParams(cl, i + 1, args, penv, b.st, sm)
           ELSE BindParams(cl, i + 1, args, penv, SetB(r.st, penv, cl.p[i], Init(r.c.v, "mut")), sm)
 
-CallFn(st0, id, args) ==
-  LET cl == st0.fns[id] IN
+CallFn(st0, id, args, tv) ==
+  LET cl == st0.fns[id]
+      \* 10.2.1.2 OrdinaryCallBindThis: sloppy functions see the global object instead of undefined
+      th == IF cl.strict \/ tv.t # "undef" THEN tv ELSE GlobalObj IN
   IF st0.fuel <= 0 THEN Thr(st0, Err(7777))
   ELSE
   LET st == [st0 EXCEPT !.fuel = @ - 1]
@@ -329,13 +388,13 @@ CallFn(st0, id, args) ==
                                    THEN (LET i == CHOOSE j \in 1..Len(cl.p) : cl.p[j] = n IN Init(IF i <= Len(args) THEN args[i] ELSE Undef, "mut"))
                                    ELSE IF n \in vnames THEN Init(Undef, "mut") ELSE Absent]
            nmap == IF cl.strict THEN 0 ELSE MinI(Len(cl.p), Len(args))      \* sloppy + simple parameters: mapped arguments object
-           st2 == IF arrow THEN AsVarEnv(NewEnv(st1, outer, LexVars(cl.body, pv))) ELSE NewFEnv(st1, outer, LexVars(cl.body, pv), args, cl.p, nmap)
+           st2 == IF arrow THEN AsVarEnv(NewEnv(st1, outer, LexVars(cl.body, pv))) ELSE NewFEnv(st1, outer, LexVars(cl.body, pv), args, cl.p, nmap, th)
            fenv == Top(st2)
            st3 == HoistF(cl.body, 1, fenv, st2, cl.strict)
        IN Finish(EvalL(cl.body, 1, fenv, st3, cl.strict))
   ELSE \* parameter scope + separate variable environment (the arguments object is unmapped)
        LET pt == [n \in Names |-> IF IsParam(cl, n) THEN TDZ("mut") ELSE Absent]
-           stP == IF arrow THEN NewEnv(st1, outer, pt) ELSE NewFEnv(st1, outer, pt, args, cl.p, 0)
+           stP == IF arrow THEN NewEnv(st1, outer, pt) ELSE NewFEnv(st1, outer, pt, args, cl.p, 0, th)
            penv == Top(stP)
            bp == BindParams(cl, 1, args, penv, stP, cl.strict)
        IN IF Abrupt(bp) THEN bp
@@ -479,8 +538,13 @@ EvalS(s, env, st, sm) ==
     [] s.t = "try" ->
          (LET b == EvalBlock(s.k[1].k, env, st, sm)
               c == IF b.c.ty = "throw" /\ b.c.v # Err(7777)
-                   THEN LET st1 == NewEnv(b.st, env, [NoVars EXCEPT ![s.x] = Init(b.c.v, "mut")])
-                        IN EvalBlock(s.k[2].k, Top(st1), st1, sm)
+                   THEN (IF s.cp.t = "none"
+                         THEN LET st1 == NewEnv(b.st, env, [NoVars EXCEPT ![s.x] = Init(b.c.v, "mut")])
+                              IN EvalBlock(s.k[2].k, Top(st1), st1, sm)
+                         ELSE \* 14.15.2 CatchClauseEvaluation with a binding pattern: the names are created uninitialised, then bound
+                              LET st1 == NewEnv(b.st, env, [n \in Names |-> IF n \in PatTargets(s.cp) THEN TDZ("mut") ELSE Absent])
+                                  bp == BindPat(s.cp, 1, b.c.v, Top(st1), st1, sm, "let")
+                              IN IF Abrupt(bp) THEN bp ELSE EvalBlock(s.k[2].k, Top(st1), bp.st, sm))
                    ELSE b
           IN IF Len(s.k) < 3 \/ (c.c.ty = "throw" /\ c.c.v = Err(7777)) THEN c
              ELSE LET f == EvalBlock(s.k[3].k, env, c.st, sm) IN IF Abrupt(f) THEN f ELSE [st |-> f.st, c |-> c.c])
@@ -490,7 +554,7 @@ EvalS(s, env, st, sm) ==
 Run(p) ==
   LET top == [p |-> <<>>, d |-> <<>>, pp |-> <<>>, k |-> p.body, kind |-> "func", x |-> "f", s |-> p.strict]
       m == MkFn(Store0, top, 1, FALSE)
-      r == CallFn(m.st, m.id, <<>>)
+      r == CallFn(m.st, m.id, <<>>, Undef)
   IN [id |-> p.id, log |-> r.st.log,
       ty |-> IF r.c.ty = "throw" THEN (IF r.c.v = Err(7777) THEN "fuel" ELSE "throw") ELSE "return",
       v |-> Code(r.c.v), envs |-> Len(r.st.envs), fns |-> Len(r.st.fns)]
